@@ -421,6 +421,34 @@ def r11_7(ctx, fx):
     ctx.anchor("R11.7", "leave-Validating sites x directions", n, 8, cfg=fx.cfg)
 
 
+def r11_8(ctx, fx):
+    """event order of the protocol task: the connection handler sends its close notice (shutdown_tx) before it reports
+    NotificationStreamClosed to the user, so a user command issued in reaction can already be queued when the protocol task is polled
+    next.  The select in next_event must therefore be `biased` and poll the close notices before the user commands; otherwise an
+    OpenSubstream is evaluated against the stale `Open` state and silently ignored (no opened / open-failure ever)."""
+    keys = [k for k in fx.find(r"^protocol::notification::NotificationProtocol::next_event::\{closure#0\}::\{closure#\d+\}$")
+            if fx.fn(k).aggregates(r"__tokio_select_util::Out$")]
+    ctx.anchor("R11.8", "next_event: select poll closure", len(keys), 1, cfg=fx.cfg)
+    for key in keys:
+        fn = fx.fn(key)
+        ctx.bodies.add((fx.cfg, key))
+        rnd = fn.calls(r"thread_rng_n$")
+        ctx.ob("R11.8", "next_event/select-is-biased", not rnd, site=fn.site(fn.entry), cfg=fx.cfg, detail="random start index calls: %d" % len(rnd))
+        polls = [c for c in fn.calls(r"Future>?::poll$")]
+        idx = {}
+        for c in polls:
+            ty = fn.local_ty((c.args[0].get("m") or c.args[0].get("c"))[0])
+            r = fn.reach([c.node], after=True, avoid=[p.node for p in polls if p is not c])
+            ks = sorted({s_["rv"].get("var") for n_, s_ in fn.aggregates(r"__tokio_select_util::Out$") if n_ in r and s_["rv"].get("var", "").startswith("_")})
+            if len(ks) == 1:
+                idx[ty] = int(ks[0][1:])
+        close = [v for t, v in idx.items() if re.search(r"Output = std::option::Option<peer_id::PeerId>>", t)]
+        cmd = [v for t, v in idx.items() if "NotificationCommand" in t]
+        ctx.anchor("R11.8", "next_event: close-notice branch / command branch", min(len(close), len(cmd)), 1, cfg=fx.cfg)
+        ctx.ob("R11.8", "next_event/close-notices-polled-before-user-commands", bool(close) and bool(cmd) and max(close) < min(cmd), site=fn.site(fn.entry), cfg=fx.cfg,
+               detail="branch index of shutdown_rx.recv(): %s, of command_rx.recv(): %s" % (close, cmd))
+
+
 def run(ctx):
     fx = ctx.facts("default")
     r11_6(ctx, fx)
@@ -430,5 +458,6 @@ def run(ctx):
     r11_4(ctx, fx)
     r11_5(ctx, fx)
     r11_7(ctx, fx)
+    r11_8(ctx, fx)
     ctx.assume("arms ending in debug_assert!(false) diverge in the analysed profile and are not exits (stated beliefs of the developers)")
     ctx.assume("a dropped oneshot shutdown sender also wakes the connection task (Receiver resolves with Err), which closes silently")
